@@ -4,7 +4,7 @@
 # /repo itself is never patched.   usage: tools/seed_matrix.sh [seed-id ...]
 cd /verif
 if [ $# -gt 0 ]; then LIST="$@"; else LIST=$(ls -d /verif/seeded/*/ | xargs -n1 basename); fi
-echo $LIST | tr ' ' '\n' | xargs -P 4 -n 1 tools/seed_row.sh
+echo $LIST | tr ' ' '\n' | xargs -P 5 -n 1 tools/seed_row.sh
 OUT=/verif/seeded/MATRIX.md
 echo "| seed | property | exit | deductive: failing obligations (first two) | native: violations (first two) |" > $OUT
 echo "|------|----------|------|-------------------------------------------|-------------------------------|" >> $OUT
